@@ -482,3 +482,19 @@ pub fn keyorder_docs() -> Vec<RVal> {
     }
     out
 }
+
+/// objects whose keys come from the special-string alphabet SSTR (NUL, control characters, quote,
+/// backslash, non-BMP, U+2028, 0x7f, keys that are prefixes of one another, keys spelled like
+/// literals): every single key, every pair of keys, each also nested in an array
+pub fn strkey_docs() -> Vec<RVal> {
+    let ks = sstr();
+    let mut out = vec![];
+    for (i, a) in ks.iter().enumerate() {
+        out.push(RVal::obj(vec![(a.as_str(), RVal::u(1))]));
+        out.push(RVal::Arr(vec![RVal::obj(vec![(a.as_str(), RVal::s("x"))])]));
+        for b in ks.iter().skip(i + 1) {
+            out.push(RVal::obj(vec![(a.as_str(), RVal::u(1)), (b.as_str(), RVal::s("two"))]));
+        }
+    }
+    out
+}
